@@ -1219,15 +1219,28 @@ Proof.
   intros H [E|Hin]; apply andb_true_iff in H as [H1 H2]; [inversion E; subst; exact H1|now apply IH].
 Qed.
 
+Lemma stmt_good_flat lay x :
+  match x with SMedia _ _ _ _ _ _ => False | _ => True end -> wf_stmt x = true -> Good lay x.
+Proof.
+  intros Hx H. destruct x.
+  - apply good_charset.
+  - apply good_import; exact H.
+  - apply good_namespace; exact H.
+  - contradiction.
+  - apply good_page; exact H.
+  - apply good_fontface; exact H.
+  - cbn [wf_stmt] in H. apply andb_true_iff in H as [Hs Hb]. destruct (style_wf lay sels b Hs Hb) as (A & B & C & D).
+    unfold Good. cbn [stmt_deep_ok]. split; [exact B|split; [exact C|split; [exact A|exact D]]].
+  - apply good_unknown; exact H.
+  - apply good_comment; exact H.
+Qed.
+
 Lemma stmt_good_n lay : forall n x, (depth x <= n)%nat -> wf_stmt x = true -> Good lay x.
 Proof.
-  induction n as [|n IH]; intros x Hd H; destruct x;
-    try apply good_charset; try (now apply good_import); try (now apply good_namespace); try (now apply good_page);
-    try (now apply good_fontface); try (now apply good_unknown); try (now apply good_comment);
-    try (cbn [wf_stmt] in H; apply andb_true_iff in H as [Hs Hb]; destruct (style_wf lay sels b Hs Hb) as (A & B & C & D);
-         unfold Good; cbn [stmt_deep_ok]; now auto).
-  - cbn [depth] in Hd. lia.
-  - cbn [wf_stmt] in H. apply andb_true_iff in H as [Hm Hb]. apply good_media; [exact Hm|].
+  induction n as [|n IH]; intros x Hd H.
+  - destruct x; try (apply stmt_good_flat; [exact I|exact H]). cbn [depth] in Hd. lia.
+  - destruct x; try (apply stmt_good_flat; [exact I|exact H]).
+    cbn [wf_stmt] in H. apply andb_true_iff in H as [Hm Hb]. apply good_media; [exact Hm|].
     intros y g Hin. apply IH; [|now apply (wf_in_body body y g)].
     cbn [depth] in Hd. pose proof (depth_in_body body y g Hin). lia.
 Qed.
